@@ -56,6 +56,7 @@ def main():
     ap.add_argument('--checks', default='')
     ap.add_argument('--root', default='seeded', help="'seeded' (property-breaking changes, expect exit 1) or 'benign' (property-preserving changes, expect exit 0)")
     ap.add_argument('--related', action='store_true', help='also run every check whose anchor files include a file the patch touches')
+    ap.add_argument('--related-only', default='', help='with --related: restrict the additional checks to this comma-separated list')
     a = ap.parse_args()
     global SEEDED
     SEEDED = os.path.join(VERIF, a.root)
@@ -69,6 +70,8 @@ def main():
             touched = set(l[6:].strip() for l in open(os.path.join(d, 'patch.diff')) if l.startswith('+++ b/'))
             for l in open(os.path.join(VERIF, 'properties.jsonl')):
                 pr = json.loads(l)
+                if a.related_only and pr['id'] not in a.related_only.split(','):
+                    continue
                 if pr['id'] not in checks and touched & set(pr['anchors']['files']):
                     checks.append(pr['id'])
         scratch = tempfile.mkdtemp(prefix='seedrun-')
